@@ -557,6 +557,43 @@ func (e *env) checkShapeCase(sc, pristine *shapeCase, digests []blockDigest) {
 		}
 		e.same("BlockTransactionsBucket.Prefix().Add(n).Scan", "entries", 1, n, nil)
 	}
+	// scan prefixes are values: the per-block prefixes derived from ONE bucket-level prefix, all
+	// alive at once, each select their own block (a prefix must not be rewritten by a later Add
+	// on its parent)
+	if len(pristine.Blocks) >= 2 {
+		parent := core.BlockTransactionsBucket.Prefix()
+		type derived struct {
+			b   *shapedBlock
+			key []byte
+		}
+		var ds []derived
+		scans := make([]func() (int, [][]byte), 0, len(pristine.Blocks))
+		for _, b := range pristine.Blocks {
+			p := parent.Add(b.Header.Number)
+			ds = append(ds, derived{b, core.BlockTransactionsBucket.Key(mustCBOR(b.Header.Number))})
+			scans = append(scans, func() (int, [][]byte) {
+				n := 0
+				var keys [][]byte
+				for ent, err := range p.Scan(st) {
+					if err != nil {
+						break
+					}
+					n++
+					keys = append(keys, slices.Clone(ent.Key))
+				}
+				return n, keys
+			})
+		}
+		for i, d := range ds {
+			n, keys := scans[i]()
+			e.evals++
+			if n != 1 || !bytes.Equal(keys[0], d.key) {
+				e.report("read-back:scan:sibling-prefix-selects-another-block", "BlockTransactionsBucket: p := Prefix(); p.Add(n_i) for all i; then Scan each", nil,
+					fmt.Sprintf("the prefix derived for block %d (one of %d derived from the same parent) yields %d entries with keys %x, want exactly key %x", d.b.Header.Number, len(ds), n, keys, d.key))
+				break
+			}
+		}
+	}
 	// classes
 	for _, cl := range pristine.Classes {
 		e.desc = fmt.Sprintf("class %s (%s)", cl.Hash.String(), typeName(cl.Def.Class))
